@@ -25,6 +25,7 @@ pub const CATALOGUE: &[(&str, &str)] = &[
     ("diff.context", "7"),
     ("diff.context", "0"),
     ("diff.interHunkContext", "5"),
+    ("diff.interHunkContext", "12"),
     ("diff.indentHeuristic", "false"),
     ("diff.colorMoved", "zebra"),
     ("diff.wsErrorHighlight", "all"),
@@ -100,6 +101,17 @@ pub fn strategy() -> impl Strategy<Value = Case> {
         proptest::collection::vec(
             prop_oneof![
                 5 => c02::block(),
+                // partial commits: some hunks of the agents' work are committed while others
+                // (in the same file, close by) stay unstaged in the working tree
+                3 => (proptest::collection::vec(ai_edit_op(), 1..=3), 0u8..3, 1u16..0xffff, proptest::collection::vec(edit_op(crate::gen::edit_r1()), 0..=2)).prop_map(|(mut v, file, mask, more)| {
+                    v.push(HOp::CommitHunks { file, mask });
+                    v.extend(more);
+                    v.push(HOp::CommitHunks { file, mask: mask.rotate_left(3) | 1 });
+                    v.push(HOp::Commit);
+                    v
+                }),
+                1 => (1u8..7).prop_map(|mask| vec![HOp::CommitFiles { mask }]),
+                3 => sandwich_partial_block(),
                 2 => (crate::history::name_idx(3), crate::gen::ai_actor(), crate::gen::line_specs(3), any::<bool>()).prop_map(|(name, actor, lines, commit)| {
                     let mut v = vec![HOp::NewFile { name, actor, lines }];
                     if commit {
@@ -110,7 +122,17 @@ pub fn strategy() -> impl Strategy<Value = Case> {
             ],
             2..=6,
         ),
-        proptest::collection::vec(0u8..CATALOGUE.len() as u8, 1..=8),
+        (proptest::collection::vec(0u8..CATALOGUE.len() as u8, 1..=8), proptest::option::weighted(0.6, 0u8..16)).prop_map(|(mut v, shaping)| {
+            // settings that change which hunks `git diff` reports are the ones attribution
+            // code is most exposed to: make sure they are well represented
+            if let Some(i) = shaping {
+                let keys = ["diff.interHunkContext", "diff.context", "diff.algorithm", "diff.indentHeuristic", "diff.noprefix", "diff.mnemonicPrefix", "diff.renames", "diff.gaiv.textconv", "diff.external", "diff.suppressBlankEmpty"];
+                let want = keys[i as usize % keys.len()];
+                let cands: Vec<u8> = CATALOGUE.iter().enumerate().filter(|(_, (k, _))| *k == want).map(|(n, _)| n as u8).collect();
+                v.push(cands[(i as usize / keys.len()) % cands.len()]);
+            }
+            v
+        }),
         any::<bool>(),
         proptest::bool::weighted(0.15),
         proptest::bool::weighted(0.15),
@@ -119,7 +141,7 @@ pub fn strategy() -> impl Strategy<Value = Case> {
     )
         .prop_map(|(files, blocks, settings, local_scope, env_ext_diff, env_diff_opts, env_pager, context)| {
             let mut ops: Vec<HOp> = blocks.into_iter().flatten().filter(|o| !matches!(o, HOp::CherryPick { no_commit: true, .. })).collect();
-            ops.truncate(18);
+            ops.truncate(24);
             Case { history: HCase { files, ops }, settings, local_scope, env_ext_diff, env_diff_opts, env_pager, context }
         })
 }
@@ -226,9 +248,9 @@ pub fn spec() -> Spec<Case> {
         id: "C12",
         level: "exploration",
         rule: "a generated history (C02 alphabet, <=18 ops, plain and unusual file names, new files/directories) executed twice with identical pinned dates: under the baseline sandbox, and under a random subset (1-8, so interactions occur) of a 66-entry catalogue of settings that change only the text git prints (diff prefixes/algorithm/context/renames/colour/external diff/textconv, quotePath, pagers, abbrev, status.*, column, blame.*, notes.*, log.*, grep.*, i18n, advice.*, commit.*, stash.*, merge.conflictStyle ...) at global or local scope, plus GIT_EXTERNAL_DIFF / GIT_DIFF_OPTS / GIT_PAGER, and an invocation context (repository root, a sub-directory, outside with -C <abs>, outside with chained -C). Commit ids coincide; attestation sets per commit, `blame --json` per file and tip, and `stats --json` per commit must be equal to the baseline run's. non-trivial = twins produced the same commits and AI checkpoints are present; distinct by case hash".into(),
-        cases_quick: 112,
+        cases_quick: 182,
         cases_thorough: 2500,
-        shrink_iters: 50,
+        shrink_iters: 20,
         workers: 14,
         strategy: strategy().sboxed(),
         run,
